@@ -345,8 +345,8 @@ class RepoInterp:
             v_bm = self.call_value(fval, call, args, kwargs, st)
             if v_bm is not None:
                 return v_bm
-        if isinstance(fval, R) and fval.kind == "partial" and isinstance(call.func, ast.Name) and not kwargs:
-            return self.apply_callable(call.func, list(args), st)  # a local holding functools.partial(f, ...)
+        if isinstance(fval, R) and fval.kind == "partial" and isinstance(call.func, ast.Name) and "**" not in kwargs:
+            return self.apply_callable(call.func, list(args), st, dict(kwargs))  # a local holding functools.partial(f, ...)
         if kwargs and "**" not in kwargs:
             # canonical argument form for package callees: leading parameters given by keyword become positional, so
             # that f(a, b) and f(x=a, y=b) look the same to every hook and rule
@@ -469,7 +469,7 @@ class RepoInterp:
             return self.repo.cls(m, c, required=False)
         return None
 
-    def apply_callable(self, fnode: ast.AST, args: List[V], st: State) -> Optional[V]:
+    def apply_callable(self, fnode: ast.AST, args: List[V], st: State, kwargs: Optional[Dict[str, V]] = None) -> Optional[V]:
         """the value of fnode(*args) where fnode is the expression of a callable: a lambda, a local function, a function
         or method of the package, functools.partial(...) of one, or a builtin the platform catalogue folds"""
         it = self.interp
@@ -481,12 +481,20 @@ class RepoInterp:
         if isinstance(fv, R) and fv.kind == "partial":
             inner = fv.fields["call"].v
             pre = list(fv.fields["args"].v)
-            fake = ast.Call(func=inner, args=[ast.Name(id=f"__a{i}", ctx=ast.Load()) for i in range(len(pre) + len(args))], keywords=[])
+            kw_all = dict(fv.fields["kwargs"].v) if "kwargs" in fv.fields else {}
+            kw_all.update(kwargs or {})  # keywords given at the call override the ones the partial holds
+            fake = ast.Call(func=inner, args=[ast.Name(id=f"__a{i}", ctx=ast.Load()) for i in range(len(pre) + len(args))],
+                            keywords=[ast.keyword(arg=kn, value=ast.Name(id=f"__k_{kn}", ctx=ast.Load())) for kn in kw_all])
+            ast.copy_location(fake, inner)
+            ast.fix_missing_locations(fake)
             sub = st
             saved = {}
             for i, v in enumerate(pre + list(args)):
                 saved[f"__a{i}"] = sub.env.get(f"__a{i}")
                 sub.env[f"__a{i}"] = v
+            for kn, kv in kw_all.items():
+                saved[f"__k_{kn}"] = sub.env.get(f"__k_{kn}")
+                sub.env[f"__k_{kn}"] = kv
             try:
                 return it.eval(fake, sub)
             finally:
@@ -516,7 +524,7 @@ class RepoInterp:
         it = self.interp
         tailname = (fname or "").split(".")[-1]
         if tailname == "partial" and (fname in ("partial", "functools.partial")) and call.args:
-            return R("partial", call=K(call.args[0]), args=K(tuple(args[1:])))
+            return R("partial", call=K(call.args[0]), args=K(tuple(args[1:])), kwargs=K(tuple(kwargs.items())))
         if fname == "zip" and args and not kwargs:
             cols = [it.iterate(a, st) for a in args]
             if all(c is not None for c in cols):
@@ -856,6 +864,14 @@ class RepoInterp:
             names_t = [t.name.split(":")[-1].split(".")[-1] for t in targets if isinstance(t, S)]
             if len(names_t) == len(targets):
                 return K(any(exc_is(args[0].name[len("excclass:"):], n_, self.interp.exc_parents) for n_ in names_t))
+        if fname == "isinstance" and len(args) == 2 and ((isinstance(args[0], S) and args[0].name.startswith("exc:")) or (isinstance(args[0], R) and args[0].kind == "exc" and isinstance(args[0].fields.get("cls"), K))):
+            # an exception object in flight (bound by a handler, or handed to __exit__): decided by the class hierarchy
+            from mtsa.absint import exc_is
+            ename = args[0].name[len("exc:"):] if isinstance(args[0], S) else args[0].fields["cls"].v
+            targets = list(args[1].v) if isinstance(args[1], K) and isinstance(args[1].v, tuple) else [args[1]]
+            names_t = [t.name.split(":")[-1].split(".")[-1] for t in targets if isinstance(t, S)]
+            if len(names_t) == len(targets):
+                return K(any(exc_is(ename, n_, self.interp.exc_parents) for n_ in names_t))
         if meth is not None and isinstance(fval, Ref) and fval.kind == "obj" and isinstance(st.deref(fval), dict) and meth in st.deref(fval):
             held_a = st.deref(fval)[meth]  # an attribute that holds a callable (a closure, a bound method, a function)
             v_a = self.call_value(held_a, call, args, kwargs, st)
